@@ -165,7 +165,12 @@ func c26gen(r *core.R, c *core.Ctx, present []b6.FeatureID, depth int) c26change
 	case 0: // add-tag, present feature
 		id := core.Pick(r, present)
 		c.Count("gen_add_tag_present")
-		return c26addTag(id, core.Pick(r, keys), uniq())
+		v := uniq()
+		if r.Chance(0.15) {
+			v = "" // a tag that is present with an empty value is not an absent tag
+			c.Count("gen_add_tag_empty_value")
+		}
+		return c26addTag(id, core.Pick(r, keys), v)
 	case 1: // add-tag, absent feature
 		id := core.Pick(r, absentIDs)
 		c.Count("gen_add_tag_absent")
@@ -350,7 +355,7 @@ func init() {
 		Assumptions: []string{"ingest.Change.Apply on the twin world is the reference for whether applying fails and for the world afterwards",
 			"api.Evaluate on the twin yields the same change value as the evaluation inside the code under test"},
 		Quick: 3000, Thorough: 600000,
-		Required: []string{"must_fail_by_construction", "twin_failed", "twin_ok", "path_grpc", "path_evaluator", "failed_and_reported", "ok_and_ids_checked", "ok_and_postcondition_checked", "pre_readd_point", "directed_edit_readd_edit", "merge_failed"},
+		Required: []string{"must_fail_by_construction", "twin_failed", "twin_ok", "path_grpc", "path_evaluator", "failed_and_reported", "ok_and_ids_checked", "ok_and_postcondition_checked", "pre_readd_point", "directed_edit_readd_edit", "gen_add_tag_empty_value", "merge_failed"},
 		Run: func(c *core.Ctx) {
 			r := c.R
 			worldKind := r.Intn(3)
